@@ -4,7 +4,9 @@ package main
 // the *statement skeleton* of every function that lean/ComposeVerif/Model/Select.lean models by hand —
 // HasProfile, AllServices, WithProfiles, WithServicesEnabled, WithServicesEnvironmentResolved, WithServicesDisabled,
 // ForEachService, withServices, getServicesByNames, dependentsForService, WithSelectedServices,
-// WithoutUnnecessaryResources (types/project.go) and MapKeys / MapsAppend (utils/collectionutils.go).
+// WithoutUnnecessaryResources (types/project.go) and MapKeys / MapsAppend (utils/collectionutils.go); since round 5 also the
+// three DependencyOption functions, ServiceNames, DisabledServiceNames, GetService, GetServices, GetDisabledService,
+// GetDependentsForService (types/project.go) and ServiceConfig.GetDependents (types/types.go).
 // Every statement of the body is printed in source order (ranges, conditions, assignments, deletes, calls, returns,
 // switch cases, continue); Props/C15Facts.lean states the skeletons as literals next to the model definition written
 // against them, so an edit of one of these bodies breaks an obligation before the differential streams start.
@@ -112,6 +114,14 @@ func c15GenFacts() (string, string) {
 		{"Project", "dependentsForService"}, {"Project", "WithSelectedServices"}, {"Project", "WithoutUnnecessaryResources"}} {
 		emit("types/project.go", p, fn[0], fn[1])
 	}
+	// round 5: option functions, accessors of the partition
+	for _, fn := range [][2]string{{"", "IncludeDependencies"}, {"", "IncludeDependents"}, {"", "IgnoreDependencies"},
+		{"Project", "ServiceNames"}, {"Project", "DisabledServiceNames"}, {"Project", "GetService"}, {"Project", "GetServices"},
+		{"Project", "GetDisabledService"}, {"Project", "GetDependentsForService"}} {
+		emit("types/project.go", p, fn[0], fn[1])
+	}
+	emit("types/types.go", parse("types/types.go"), "ServiceConfig", "GetDependents")
+	emit("types/services.go", parse("types/services.go"), "Services", "GetProfiles")
 	u := parse("utils/collectionutils.go")
 	emit("utils/collectionutils.go", u, "", "MapKeys")
 	emit("utils/collectionutils.go", u, "", "MapsAppend")
